@@ -299,3 +299,26 @@ func guardedState(env *Env, g *Gen, roots []*ssa.Function, extra map[*ssa.Functi
 	}
 	return out
 }
+
+func init() {
+	Register(&Property{
+		ID:       "C07",
+		Packages: []string{"pkg/prebuild"},
+		Generate: func(env *Env) *Gen {
+			g := genStandard(env, "C07", true, nil)
+			// "in the order given": Stack.Apply, Exec.Apply and Dbus.Apply must not depend on map order
+			roots := rootsOf(env, g, []string{"pkg/prebuild/directive:(Stack).Apply", "pkg/prebuild/directive:(Exec).Apply", "pkg/prebuild/directive:(Dbus).Apply"})
+			reach := frame.Reachable(env.Prog, roots)
+			frame.StdoutIsOutput = false
+			g.Static = append(g.Static, frame.MapRanges(env.Prog, reach, mapRangeJustifications(env), checkJustification(env))...)
+			frame.StdoutIsOutput = true
+			g.Unverified = []string{
+				"that no #aa: directive remains after the build (Run scans the original text once; Stack.Apply inserts foreign text)",
+				"the cleaning of a stacked profile body by multi-line regexps; that the host profile's own rules stay as they were",
+				"the text that the generated rules render to (templates), and where it is inserted",
+				"Exec.Apply's rule list beyond its order-independence (it goes through Parse and Resolve)",
+			}
+			return g
+		},
+	})
+}
